@@ -11,7 +11,7 @@ ASSUMPTIONS = [
     "StoSOO and StroquOOL are time-driven by design and excluded by the property",
 ]
 TIME_ALGOS = {"T_HOO": 5, "HCT": 6, "VHCT": 3, "Zooming": 4, "POO": 4, "GPO": 4, "PCT": 4, "VPCT": 3, "DOO": 5, "SOO": 6, "SequOOL": 7, "VROOM": 1}
-QUERY_ALGOS = {"T_HOO": 4, "HCT": 4, "VHCT": 3, "Zooming": 3, "POO": 3}
+QUERY_ALGOS = {"T_HOO": 4, "HCT": 4, "VHCT": 3, "Zooming": 3, "POO": 5}
 
 
 def bounds(tier):
@@ -74,7 +74,7 @@ def run(ctx, cfg):
             b = run_labelled(ctx, cfg, dom, rewards, labels)
             what = "rounds labelled 1..T vs arbitrary increasing labels"
         else:
-            qs = [ctx.choose(3, "queries") for _ in range(T)]
+            qs = [ctx.choose(3 if T <= 4 else 2, "queries") for _ in range(T)]
             ctx.note("queries before each pull: %s" % qs)
             b = run_labelled(ctx, cfg, dom, rewards, list(range(1, T + 1)), queries=qs)
             what = "run with get_last_point() inserted %s times before the pulls vs plain run" % qs
